@@ -12,29 +12,33 @@
 (*  OnlyVarsCarry    without them the next run gives the result of a new     *)
 (*                   interpreter that was handed just vars and rnd           *)
 (* There is no history variable, so the search runs to a fixpoint over the   *)
-(* reachable states (bounded only by MaxDraws on the draw counter).          *)
+(* reachable states (bounded only by MaxDraws on the draw counter).  Runs    *)
+(* are drawn from McKinds x McCfgs x McTags (the tag makes a run's standard  *)
+(* input its own).  Among the clears, "dash" (the scanners map: the scanner  *)
+(* of getline < "-"), "status" and "ctx" (the call installs its own context) *)
+(* are load-bearing: without any of them TLC violates Refines.               *)
 (* With Clears = CoreFields \ {"hdr"} (the code as built) TLC violates all   *)
 (* three: the counterexample is DESIGN F11.                                  *)
 EXTENDS Reuse
 
-CONSTANT Clears, MaxDraws, JudgeKinds
+CONSTANT Clears, MaxDraws, JudgeKinds, JudgeCfgs, McKinds, McCfgs, McTags
 
 VARIABLES sp, cd, rv, rr, res
 vars == <<sp, cd, rv, rr, res>>
 
 Init == sp = StInit /\ cd = StInit /\ rv = FALSE /\ rr = FALSE /\ res = <<"none", "none">>
 
+\* (bound with \E over a singleton: TLC evaluates a LET body anew at every reference inside an action)
 DoRun(kind, cfg) ==
-  LET es == ExecSpec(sp, kind, cfg)
-      ec == ExecCode(cd, kind, cfg, Clears)
-  IN /\ sp' = es.st /\ cd' = ec.st
+  \E es \in {ExecSpec(sp, kind, cfg)} : \E ec \in {ExecCode(cd, kind, cfg, Clears)} :
+     /\ sp' = es.st /\ cd' = ec.st
      /\ res' = <<es.res, ec.res>>
      /\ rv' = FALSE /\ rr' = FALSE
 
 DoResetVars == sp' = ResetVarsOp(sp) /\ cd' = ResetVarsOp(cd) /\ rv' = TRUE /\ UNCHANGED <<rr, res>>
 DoResetRand == sp' = ResetRandOp(sp) /\ cd' = ResetRandOp(cd) /\ rr' = TRUE /\ UNCHANGED <<rv, res>>
 
-Next == \/ \E kind \in Kinds, cfg \in Cfgs : DoRun(kind, cfg)
+Next == \/ \E kind \in McKinds, cn \in McCfgs, tag \in McTags : DoRun(kind, WithTag(CfgNamed(cn), tag))
         \/ DoResetVars \/ DoResetRand
 Spec == Init /\ [][Next]_vars
 
@@ -45,11 +49,12 @@ Refines == res[1] = res[2]
 NextResult(st, kind, cfg) == ExecCode(st, kind, cfg, Clears).res
 
 FreshAfterReset ==
-  (rv /\ rr) => \A kind \in JudgeKinds, cfg \in Cfgs : NextResult(cd, kind, cfg) = NextResult(StInit, kind, cfg)
+  (rv /\ rr) => \A kind \in JudgeKinds, cn \in JudgeCfgs :
+                   NextResult(cd, kind, CfgNamed(cn)) = NextResult(StInit, kind, CfgNamed(cn))
 
 OnlyVarsCarry ==
-  \A kind \in JudgeKinds, cfg \in Cfgs :
-    NextResult(cd, kind, cfg) = NextResult([StInit EXCEPT !.vars = cd.vars, !.rnd = cd.rnd], kind, cfg)
+  \A kind \in JudgeKinds, cn \in JudgeCfgs :
+    NextResult(cd, kind, CfgNamed(cn)) = NextResult([StInit EXCEPT !.vars = cd.vars, !.rnd = cd.rnd], kind, CfgNamed(cn))
 
 \* ResetVars restores exactly the variable group, ResetRand the generator
 ResetsAreExact == /\ rv => cd.vars = VarsInit
